@@ -117,7 +117,7 @@ def build(d):
     from thejoker import JokerSamples
     kw = dict(poly_trend=d["poly_trend"], n_offsets=d["n_offsets"])
     if d["t_ref"] is not None:
-        kw["t_ref"] = Time(d["t_ref"], format="mjd", scale="tcb")
+        kw["t_ref"] = Time(d["t_ref"], format="mjd", scale=d.get("t_ref_scale", "tcb"))
     s = JokerSamples(**kw)
     for c in d["cols"]:
         s[c["name"]] = np.array(c["vals"], dtype=c.get("dtype", "f8")) * u.Unit(c["unit"])
@@ -318,6 +318,8 @@ def phase_case(ctx, g, rng):
     import astropy.units as u
     d = gen_table(rng, n=int(rng.choice([1, 1, 2, 7, int(rng.integers(1, 60))])))
     d = _copy.deepcopy(d)
+    # the reference epoch may be given in any time scale (the orbit's clock is TCB, like the data times)
+    d["t_ref_scale"] = str(rng.choice(["tcb", "tcb", "utc", "tt", "tdb"]))
     ref_in_table = d["t_ref"] is not None
     scalar_row = bool(rng.random() < 0.25)
     s = build(d)
@@ -353,21 +355,22 @@ def phase_case(ctx, g, rng):
                 s.get_orbit(int(rows[0]) if not scalar_row else None)
             history.append(act)
             ctx.count(f"phase:history:{act}")
-        ok = phase_once(ctx, g, rng, s, d, rows, scalar_row, ref_in_table, tref, list(history))
+        ok = phase_once(ctx, g, rng, s, d, rows, scalar_row, ref_in_table, tref, list(history), d["t_ref_scale"])
         if not ok:
             return
     if nsteps > 1:
         ctx.count("phase:history>=2")
 
 
-def phase_once(ctx, g, rng, s, d, rows, scalar_row, ref_in_table, tref, history):
+def phase_once(ctx, g, rng, s, d, rows, scalar_row, ref_in_table, tref, history, scale="tcb"):
     import astropy.units as u
     from astropy.time import Time
     mode = str(rng.choice(["t0", "phase"], p=[0.3, 0.7]))
     punit = str(rng.choice(["rad", "deg"]))
     pturn = 360.0 if punit == "deg" else 2 * math.pi
     phase = 0.0 if mode == "t0" else float(rng.choice([rng.uniform(-2, 3) * pturn, pturn / 2, pturn, -pturn / 4, 0.0]))
-    kw = {} if ref_in_table else dict(t_ref=Time(tref, format="mjd", scale="tcb"))
+    kw = {} if ref_in_table else dict(t_ref=Time(tref, format="mjd", scale=scale))
+    ctx.count(f"phase:t_ref scale {scale}")
     if mode == "t0":
         t = s.get_t0(**kw)
     else:
@@ -392,8 +395,9 @@ def phase_once(ctx, g, rng, s, d, rows, scalar_row, ref_in_table, tref, history)
     inp = dict(d, phase=phase, phase_unit=punit, mode=mode, t_ref_used=tref, t_ref_in_table=ref_in_table,
                rows=rows if scalar_row else None, earlier_calls_on_this_object=history)
     # returned times as exact offsets from the reference epoch (double-double)
-    tr = Time(tref, format="mjd", scale="tcb")
+    tr = Time(tref, format="mjd", scale=scale).tcb      # elapsed time is measured on the orbit's clock (TCB)
     tt = t.tcb
+    scale_slack = Fraction(0) if scale == "tcb" else Fraction(1, 10 ** 11)    # ~1e-6 s for the scale conversions
     want_shape = () if len(rows) == 1 else (len(rows),)
     why = None
     if tuple(np.shape(tt.jd1)) != want_shape:
@@ -411,7 +415,7 @@ def phase_once(ctx, g, rng, s, d, rows, scalar_row, ref_in_table, tref, history)
             M = dts[i] / Pd - m0t          # mean anomaly in turns
             dev = (M - pht) % 1
             dev = min(dev, 1 - dev)
-            tol = Fraction(8 * EPS) * (abs(m0t) + abs(pht)) + Fraction(4 * EPS) + Fraction(4 * EPS) / Pd
+            tol = Fraction(8 * EPS) * (abs(m0t) + abs(pht)) + Fraction(4 * EPS) + (Fraction(4 * EPS) + scale_slack) / Pd
             if dev > tol:
                 why = (f"row {r}: P={Pv[i]!r} {cP['unit']}, M0={Mv[i]!r} {cM['unit']}: mean anomaly at the returned time is "
                        f"{float(M % 1)!r} turns, requested phase {float(pht % 1)!r} turns (deviation {float(dev):.3g}, "
@@ -426,7 +430,7 @@ def phase_once(ctx, g, rng, s, d, rows, scalar_row, ref_in_table, tref, history)
         return False
     for i, r in enumerate(rows):
         Pd = F(Pv[i]) * SCALES[cP["unit"]]
-        tol = (Fraction(8 * EPS) * (abs(F(Mv[i]) / F(mturn)) + abs(F(phase) / F(pturn))) + Fraction(4 * EPS)) * Pd + Fraction(4 * EPS)
+        tol = (Fraction(8 * EPS) * (abs(F(Mv[i]) / F(mturn)) + abs(F(phase) / F(pturn))) + Fraction(4 * EPS)) * Pd + Fraction(4 * EPS) + scale_slack
         if abs(dts[i] - (Fraction(m["t"][i]) - F(tref))) > tol:
             ctx.mismatch(rel, g, inp, dict(dt=float(dts[i]), row=r), dict(dt=float(Fraction(m["t"][i]) - F(tref))),
                          "returned time differs from t_ref + P(M0+phi)/2pi although its mean anomaly equals the phase mod 2pi")
@@ -802,6 +806,8 @@ def post(ctx):
     ctx.require("t_ref passed as argument", c["phase:tref_argument"], 15)
     ctx.require("single-row samples", c["phase:single_row"], 20)
     ctx.require("several calls on one object", c["phase:history>=2"], 40)
+    for sc in ("utc", "tt", "tdb"):
+        ctx.require(f"reference epoch given in the {sc} scale", c[f"phase:t_ref scale {sc}"], 10)
     ctx.require("explicit reference epoch changed between calls on one object", c["phase:history:tref"], 5)
     ctx.require("M0 column re-assigned between calls", c["phase:history:M0"], 8)
     ctx.require("P column re-assigned between calls", c["phase:history:P"], 8)
